@@ -10,6 +10,7 @@ import (
 	"go/types"
 	"sort"
 	"strings"
+	"sync/atomic"
 	"unsafe"
 
 	"golang.org/x/tools/go/ssa"
@@ -649,7 +650,12 @@ func (i *interpreter) registerModels(harnessPkgPath string) {
 			if !others {
 				t.r.violate("deadlock", "livelock: thread spins on Gosched and no other thread can run", callerSite(fr))
 			}
-			t.r.abort(outcomeUnwind, "Gosched spin budget exceeded at "+callerSite(fr))
+			// other threads can run but the schedule never lets the one that would end the spin
+			// make progress: an unfair schedule (the Go scheduler is fair to runnable goroutines
+			// across Gosched); every state it visits is visited by a fair schedule as well, so
+			// the path is dropped, not reported
+			atomic.AddInt64(&t.r.ex.stats.unfair, 1)
+			t.r.abort(outcomeAssumeFalse, "")
 		}
 		t.yieldForced()
 		return nil
